@@ -37,7 +37,9 @@ EmptyNs == [n \in Names |-> Unbound]
 AllVariants == {"no", "empty", "emptyt", "v", "vh", "vz"}
 AllList(a) == CASE a = "v" -> <<"v">> [] a = "vh" -> <<"v", "_h">> [] a = "vz" -> <<"v", "zz">> [] OTHER -> <<>>
 RaiseVariants == {"no", "early", "late"}     \* the body raises ValueError right after its first line / just before its last
-Kinds == {"src", "gosrc", "goglob"}          \* file on sys.path / registered Go ModuleImpl with Python CodeSrc / registered Go ModuleImpl with Globals only
+Kinds == {"src", "gosrc", "goglob", "late"}  \* file on sys.path / registered Go ModuleImpl with Python CodeSrc / registered Go ModuleImpl with Globals only
+                                             \* / file in a directory that is appended to sys.path only by the main program's "addpath" statement
+AddPathStmt == [form |-> "addpath", t |-> "-"]
 
 (* cfg = [mods |-> [m \in Mods |-> [kind, pre, post, all, raises]], main |-> sequence of statements] *)
 ModOK(c) == /\ c.kind \in Kinds /\ c.all \in AllVariants /\ c.raises \in RaiseVariants
@@ -46,7 +48,7 @@ ModOK(c) == /\ c.kind \in Kinds /\ c.all \in AllVariants /\ c.raises \in RaiseVa
             /\ \A i \in 1..Len(c.post) : c.post[i] \in AnyStmt
             /\ (c.kind = "goglob" => c.pre = <<>> /\ c.post = <<>> /\ c.raises = "no")
 CfgOK(c) == /\ DOMAIN c.mods = Mods /\ \A m \in Mods : ModOK(c.mods[m])
-            /\ Len(c.main) \in 1..4 /\ \A i \in 1..Len(c.main) : c.main[i] \in AnyStmt
+            /\ Len(c.main) \in 1..4 /\ \A i \in 1..Len(c.main) : c.main[i] \in AnyStmt \cup {AddPathStmt}
 
 Plain(pre, post) == [kind |-> "src", pre |-> pre, post |-> post, all |-> "no", raises |-> "no"]
 
@@ -105,6 +107,21 @@ ModNameMods == { [m \in Mods |-> IF m = "ma" THEN Plain(a.pre, a.post) ELSE IF m
                    b \in { <<>>, <<[form |-> "import", t |-> "mc"]>> } }
 ModNameFamily == { [mods |-> ms, main |-> q] : ms \in ModNameMods,
                      q \in SeqsUpTo(StmtsOver({"import"}, Mods) \cup { [form |-> "frommod", t |-> t, u |-> u] : t \in {"ma", "mb"}, u \in {"mb", "mc"} }, 3) }
+
+(* --- family "late": a missing module that becomes available.  ma's file lies in a directory that is not on   *)
+(* sys.path at first; mb imports ma in some way (before or after its definitions, guarded like every import) or *)
+(* not at all; the main program is any sequence of 1..4 statements over imports of ma and mb and the statement  *)
+(* that appends the directory to sys.path.  A failed import must leave nothing behind: the same statement       *)
+(* succeeds after the path was extended, the body runs once, and what mb missed it keeps missing.               *)
+SeqsOf4(S) == SeqsUpTo(S, 3) \cup {<<a, b, c, d>> : a \in S, b \in S, c \in S, d \in S}
+OneImportOf(forms, targets) ==
+  {[pre |-> <<>>, post |-> <<>>]} \cup {[pre |-> <<x>>, post |-> <<>>] : x \in StmtsOver(forms, targets)}
+                                  \cup {[pre |-> <<>>, post |-> <<x>>] : x \in StmtsOver(forms, targets)}
+LateMods == { [m \in Mods |-> IF m = "ma" THEN [Plain(<<>>, <<>>) EXCEPT !.kind = "late"] ELSE IF m = "mb" THEN Plain(b.pre, b.post) ELSE Plain(<<>>, <<>>)] :
+                b \in OneImportOf({"import", "from", "star"}, {"ma"}) }
+LateFamily == { [mods |-> ms, main |-> q] : ms \in LateMods,
+                  q \in { r \in SeqsOf4({AddPathStmt, [form |-> "import", t |-> "ma"], [form |-> "from", t |-> "ma"], [form |-> "import", t |-> "mb"]}) :
+                            \E i \in 1..Len(r) : r[i] = AddPathStmt } }
 
 (* --- family "raise": two modules with at most one import each and a body that may raise;    *)
 (* the main program imports one of them, then ma, then a name of mb.                          *)
